@@ -80,6 +80,63 @@ def cut(buf, size):
 
 
 # ------------------------------------------------------------------------------------------------
+# contents of the free fields (UD value, hashes, block hash, ...): boundary-first inside the class
+# ------------------------------------------------------------------------------------------------
+# Every such field sits right after a parsed header / version / fixed-size field and right before
+# another one.  A legitimate value may look like a continuation of its neighbours: ASCII digits after
+# a version number, '.' / ':' after a header, the headers' own characters, line breaks, all-zero or
+# all-one bytes.  `content(rng, n, profile)` gives n such bytes.
+PROFILES = ("random", "digits", "digit1", "punct", "header", "newline", "zeros", "ones", "alnum")
+_HEADERS = (b"HSM:UI:5.4", b"POWHSM:5.4::", b"HSM:SIGNER:5.4", b"led", b"sgx", b"::", b"5.4", b"HSM:",
+            b"-----END CERTIFICATE-----\n")
+
+
+def content(rng, n, profile):
+    if n == 0:
+        return b""
+    if profile == "digits":               # ASCII digits throughout
+        b = bytes(rng.choice(b"0123456789") for _ in range(n))
+    elif profile == "digit1":             # one / a few leading ASCII digits, then anything
+        k = rng.choice((1, 1, 2, 3))
+        b = bytes(rng.choice(b"0123456789") for _ in range(k)) + rng.randbytes(n)
+    elif profile == "punct":
+        b = rng.choice((b".", b":", b"::", b".7", b":5.4", b",", b"-", b" ")) + rng.randbytes(n)
+    elif profile == "header":
+        b = rng.choice(_HEADERS) + rng.randbytes(n)
+    elif profile == "newline":
+        b = rng.choice((b"\n", b"\r\n", b"\r", b"\x00\n", b"9\n")) + rng.randbytes(n)
+    elif profile == "zeros":
+        b = bytes(n)
+    elif profile == "ones":
+        b = b"\xff" * n
+    elif profile == "alnum":
+        b = bytes(rng.choice(b"0123456789abcdefABCDEFxX.:") for _ in range(n))
+    else:
+        b = rng.randbytes(n)
+    return b[:n]
+
+
+def grind_keys(dev, rng, profile, tries=4000):
+    """Re-draw the wallet keys until the public keys hash (a field nobody can choose directly) starts
+    like the profile asks: an ASCII digit / '.' or ':' / a line break."""
+    want = {"digits": b"0123456789", "digit1": b"0123456789", "alnum": b"0123456789", "punct": b".:,- ",
+            "newline": b"\n\r", "header": b"HPls:5"}.get(profile)
+    if want is None:
+        return False
+    from .simdev_admin import pub_uncompressed, N as _N
+    from .simdev import PATH_BYTES
+    pbs = [PATH_BYTES[k] for k in sorted(PATH_BYTES)]
+    last = pbs[-1]
+    for _ in range(tries):
+        k = rng.randrange(1, _N)
+        dev.key_scalars[last] = k
+        dev.keys[last] = pub_uncompressed(k)
+        if pubkeys_hash({p: dev.keys[path_bytes(p)] for p in SORTED_PATHS})[0] in want:
+            return True
+    return False
+
+
+# ------------------------------------------------------------------------------------------------
 # the one altered thing
 # ------------------------------------------------------------------------------------------------
 class Alteration:
@@ -155,16 +212,21 @@ class LedgerDevice(AdminSimDevice):
         self.other_root = certv1.new_key(rng)
         self.devkey = certv1.new_key(rng)
         self.attkey = certv1.new_key(rng)
-        self.cert_header = bytes(rng.randrange(256) for _ in range(rng.choice((1, 9, 9, 17, 40))))
-        self.ui_hash = rng.randbytes(32)
-        self.signer_hash = rng.randbytes(32)
+        prof = case.get("content", "random")
+        self.cert_header = content(rng, rng.choice((1, 9, 9, 17, 40)), prof)
+        self.ui_hash = content(rng, 32, prof)
+        self.signer_hash = content(rng, 32, prof)
         self.iteration = rng.choice((0, 1, 1, 2, 255, 256, 65535, rng.randrange(65536)))
         self.ui_ver = _ver(rng)
         self.legacy = case["framing"] == "legacy"
         self.s_ver = _ver(rng) if self.legacy else "5.%s" % rng.choice("0123456789")
-        self.best_block = rng.randbytes(32)
-        self.last_tx = rng.randbytes(8)
+        self.best_block = content(rng, 32, prof)
+        self.last_tx = content(rng, 8, prof)
         self.timestamp = rng.choice((0, 0, 0, 1, rng.getrandbits(40), (1 << 63) + rng.getrandbits(20)))
+        if prof != "random":
+            self.timestamp = int.from_bytes(content(rng, 8, prof), "big")
+        if case.get("grind_pkh"):
+            grind_keys(self, rng, prof)
         self.endo_set = False
         self.endo_acked = False
         self.hs = 0                # handshake stage of the dashboard session
@@ -417,7 +479,8 @@ class SgxMaterial:
             "fresh_root": det_x509(cn["root"], self.fresh_root, cn["root"], self.fresh_root, sn[3]),
         }
         self.custom = custom
-        self.qe_auth = rng.randbytes(case["qeauth"])
+        prof = case.get("content", "random")
+        self.qe_auth = content(rng, case["qeauth"], prof)
         self.att_xy = self.att.xy()
         qe = RB.random(rng)
         qe["report_data"] = hashlib.sha256(self.att_xy + self.qe_auth).digest() + bytes(32)
@@ -427,6 +490,8 @@ class SgxMaterial:
         hdr = certv2.QUOTE_HEADER.random(rng)
         hdr.update({"version": 3, "sign_type": 2, "tee_type": 0})
         body = RB.random(rng)
+        if prof != "random":
+            body["mrenclave"], body["mrsigner"] = content(rng, 32, prof), content(rng, 32, prof)
         body["report_data"] = hashlib.sha256(custom).digest() + bytes(32)
         self.q_hdr, self.q_body = hdr, body
         self.quote = certv2.QUOTE_HEADER.pack(hdr) + RB.pack(body)
@@ -452,9 +517,14 @@ class SgxDevice(AdminSimDevice):
         if self.unlocked:
             self.mode = MODE_SIGNER
         self.s_ver = "5.%s" % rng.choice("0123456789")
-        self.best_block = rng.randbytes(32)
-        self.last_tx = rng.randbytes(8)
+        prof = case.get("content", "random")
+        self.best_block = content(rng, 32, prof)
+        self.last_tx = content(rng, 8, prof)
         self.timestamp = rng.choice((0, 0, 0, 7, rng.getrandbits(40)))
+        if prof != "random":
+            self.timestamp = int.from_bytes(content(rng, 8, prof), "big")
+        if case.get("grind_pkh"):
+            grind_keys(self, rng, prof)
         self.mat = None
         self.att = None
         self.att_log = []
@@ -932,13 +1002,16 @@ def _off(rng):
     return rng.choice((0, -1, rng.randrange(1 << 16)))
 
 
-def concretise(b, rng):
+def concretise(b, rng, profile=None, grind=False):
     """One model behaviour -> a case. Dimensions the model leaves open (keys, hashes, versions, UD
     value and its spelling, page sizes inside their class, byte and bit of the alteration, PIN,
     whether SGX is unlocked by the command, signing backend) get seeded members."""
     plat, cfg, a = b["plat"], b["cfg"], b["alt"]
+    if profile is None:                  # half of the devices hold boundary-looking contents
+        profile = rng.choice(PROFILES) if rng.random() < 0.5 else "random"
     case = {"plat": plat, "framing": b["framing"], "devseed": rng.randrange(1 << 30),
-            "pin": rng.choice(PINS), "ud": rng.randbytes(32).hex(), "ud_upper": rng.random() < 0.2,
+            "content": profile, "grind_pkh": bool(grind),
+            "pin": rng.choice(PINS), "ud": content(rng, 32, profile).hex(), "ud_upper": rng.random() < 0.2,
             "ud_prefix": rng.random() < 0.3, "verbose": rng.random() < 0.2,
             "backend": rng.choice(("libsecp", "libsecp", "ecdsa")),
             "ui_pagesize": 255, "s_pagesize": 255, "e_pagesize": 255, "e_pages": 1,
@@ -982,6 +1055,27 @@ def _safe(case, alt):
     return alt
 
 
+def content_cases(rng):
+    """Genuine devices whose free fields hold boundary-looking contents: every profile on every
+    platform / framing, with few and with many pages, the public keys hash ground to match too.
+    Deterministic in shape (only the random filler bytes depend on the seed)."""
+    out = []
+    shapes = [("ledger", "current", {"uip": 1, "sp": 1}), ("ledger", "current", {"uip": 4, "sp": 3}),
+              ("ledger", "legacy", {"uip": 2, "sp": 1}),
+              ("sgx", "current", {"sp": 1, "ep": 1, "qeauth": 32, "npem": 3}),
+              ("sgx", "current", {"sp": 4, "ep": 99, "qeauth": 1, "npem": 2})]
+    for plat, framing, part in shapes:
+        cfg = {"uip": 0, "sp": 1, "ep": 0, "qeauth": 0, "npem": 0}
+        cfg.update(part)
+        b = {"plat": plat, "framing": framing, "cfg": cfg, "alt": {"site": "none", "idx": 0}}
+        for prof in PROFILES[1:]:
+            for grind in (False, True):
+                c = concretise(b, rng, profile=prof, grind=grind)
+                c["boundary"] = True
+                out.append(c)
+    return out
+
+
 def class_key(b):
     return (b["plat"], b["framing"], b["alt"]["site"], b["alt"]["idx"])
 
@@ -1001,6 +1095,8 @@ def signature(clause, case):
         for k in ("field", "page", "how"):
             if a.get(k) is not None:
                 s += " %s=%s" % (k, a[k])
+    if clause == "GenuineVerifies" and case.get("content", "random") != "random":
+        s += " content=%s%s" % (case["content"], "+keyshash" if case.get("grind_pkh") else "")
     return s
 
 
